@@ -165,6 +165,22 @@ class Select(Factory, Container):
 
     def _numpy(self, data, weights, shape):
         w = self.quantity(data)
+        if isinstance(w, numbers.Real):
+            # a constant selection (``histogrammar.defs.unweighted``, the default of HistogramCut) says nothing about
+            # the number of rows: like a collection, the Select learns it from what lies below
+            import numpy
+
+            if shape[0] is not None:
+                self._checkNPWeights(weights, shape)
+                weights = self._makeNPWeights(weights, shape)
+            factor = 0.0 if (math.isnan(w) or w < 0.0) else float(w)
+            self.cut._numpy(data, weights * factor, shape)
+            # no possibility of exception from here on out (for rollback)
+            if isinstance(weights, numpy.ndarray):
+                self.entries += float(weights.sum())
+            else:
+                self.entries += float(weights * shape[0])
+            return
         self._checkNPQuantity(w, shape)
         self._checkNPWeights(weights, shape)
         weights = self._makeNPWeights(weights, shape)
